@@ -341,6 +341,16 @@ async def _scenario(loop, sc):
                     rec["listing"] = sorted(W.canon_ppath(p) + ("=D" if i["type"] == "dir" else "=F" if i["type"] == "file" else "=?" + i["type"]) for p, i in lst)
                 elif op["op"] == "remove":
                     await client.remove(op["path"])
+                elif op["op"] == "rename":
+                    # a step between two operations under test (not judged itself): the tree changes by other means
+                    # than the four operations - here through the same client's rename
+                    await client.rename(op["source"], op["dest"])
+                elif op["op"] == "other-session-remove":
+                    other = aioftp.Client(path_io_factory=aioftp.MemoryPathIO)
+                    await other.connect("127.0.0.1", wd.port)
+                    await other.login()
+                    await other.remove(op["path"])
+                    await other.quit()
                 rec["status"] = "ok"
             except Exception as e:  # noqa
                 rec["status"] = _status_of(e)
@@ -638,6 +648,17 @@ def gen_scenarios(ctx, search=False):
                              {"op": "remove", "path": (d.split("/")[0] if d else "foo"), "rcwd": "/w"}, dict(up, rcwd="/w")]
                 scs.append(sc)
                 n += 1
+    # (5) ONE session: upload, the destination directory goes away by OTHER means (rename, another session), upload again
+    for j, node in enumerate(FIXED[:4] + small_dirs[:4]):
+        for d, wi in (("d", True), ("d1/d2", True), ("d", False)):
+            for m in (True, False):
+                sc = make_scenario(node, FIXED[j % len(FIXED)], d, wi, "/", m, BLOCKS[n % 3], "", False, variant=n)
+                up = sc["ops"][0]
+                top = d.split("/")[0]
+                sc["ops"] = [dict(up), {"op": "rename", "source": top, "dest": "moved-away"}, dict(up),
+                             {"op": "other-session-remove", "path": top}, dict(up), {"op": "list", "path": "", "recursive": True}]
+                scs.append(sc)
+                n += 1
     # destination collisions that must merge / not collide: dest 'd' while the source contains 'd', etc. are in FIXED
     if not search:
         scs += malformed_scenarios()
@@ -683,6 +704,8 @@ def _run(ctx, scs, compare=True):
             res.distinct.add((str(sc["local"]), up["dest"], up["wi"], sc["rcwd"], sc["mlsx"]))
         for op, rec in zip(sc["ops"], recs):
             res.count("op=%s:%s" % (op["op"], rec["status"].split(":")[0]))
+            if op["op"] in ("rename", "other-session-remove"):
+                continue  # steps between the operations under test
             f = oracle_op(sc, op, rec)
             if f:
                 res.oracle_failures.append(f)
